@@ -234,7 +234,7 @@ def main(tier, replay):
         "activate": [varlink, "-A", "%s serve $VARLINK_ADDRESS" % vh, "bridge"],
         "bridge": [varlink, "-b", "%s -R %s bridge" % (varlink, resolver.address), "bridge"],
     }
-    nseq = 40 if tier == "quick" else 3000
+    nseq = 60 if tier == "quick" else 3000
     rng = vlib.Rng(ctx.seed)
     try:
         for mode, cmd in modes.items():
